@@ -3,7 +3,10 @@
 //! (wrapped in a spy that records the prefix handed to `list_objects`).
 //!
 //! kinds
-//!   expand    in = [bucket_exists, [keys], pattern]
+//!   expand    in = [bucket_exists, [keys], pattern]  or
+//!                  [bucket_exists, [keys], pattern, [keys put with a zero-length body],
+//!                   [keys written through write_cloud_jsonl_vec with no record]]
+//!             (every other key holds the one byte "x")
 //!             out = [expand_cloud_glob outcome, expand_cloud_glob_required outcome, prefix seen]
 //!   sweep     in = [pattern, alphabet, maxlen]   bucket = every string over the alphabet of
 //!             length <= maxlen; out = [expand_cloud_glob outcome]  (keys as code point arrays)
@@ -12,6 +15,9 @@
 //!                    plain payload of the same records] | ["err", stage]
 //!   readglob  in = [[[key, [records]], ...], pattern]  objects written in this order through
 //!             write_cloud_jsonl_vec, then read_cloud_jsonl_glob; out = ["ok", records] | ["err", k]
+//!   big       in = [key, n]  records [i, "row"] for i < n, written in one call and read back;
+//!             out = ["ok", n written, n read, first id (-1 if none), last id, sum of ids,
+//!                    ids are 0,1,2,.. in order, every payload is "row", signature id] | ["err", stage]
 //!   seq       in = [[[key, [records]], ...], [keys to read]]  the writes in this order through
 //!             write_cloud_jsonl_vec (the same key may be written several times), then each
 //!             listed key through read_cloud_jsonl_vec;
@@ -141,8 +147,18 @@ fn run(kind: &str, input: &Value) -> Value {
                 st.put_object(BUCKET, "tmp", b"").unwrap();
                 st.delete_object(BUCKET, "tmp").unwrap();
             }
+            let list = |v: Option<&Value>| -> Vec<String> {
+                v.and_then(Value::as_array).map(|a| a.iter().map(str_of).collect()).unwrap_or_default()
+            };
+            let (empty_put, empty_written) = (list(input.get(3)), list(input.get(4)));
             for k in &keys {
-                st.put_object(BUCKET, k, b"x").unwrap();
+                if empty_written.contains(k) {
+                    write_cloud_jsonl_vec::<Value, _>(&st, BUCKET, k, &[]).unwrap();
+                } else if empty_put.contains(k) {
+                    st.put_object(BUCKET, k, b"").unwrap();
+                } else {
+                    st.put_object(BUCKET, k, b"x").unwrap();
+                }
             }
             let o1 = keys_outcome(expand_cloud_glob(&st, BUCKET, &pattern), false);
             let seen = match st.seen.lock().unwrap().clone() {
@@ -199,6 +215,27 @@ fn run(kind: &str, input: &Value) -> Value {
                 Ok(v) => json!(["ok", v]),
                 Err(e) => json!(["err", format!("{:?}", e.kind)]),
             }
+        }
+        "big" => {
+            let key = str_of(&input[0]);
+            let n = input[1].as_i64().unwrap();
+            let recs: Vec<(i64, String)> = (0..n).map(|i| (i, "row".to_string())).collect();
+            let st = FakeObjectIO::new();
+            let nw = match write_cloud_jsonl_vec(&st, BUCKET, &key, &recs) {
+                Ok(k) => k,
+                Err(e) => return json!(["err", format!("write:{:?}", e.kind)]),
+            };
+            let sig = signature_id(&st.get_object(BUCKET, &key).unwrap());
+            let back: Vec<(i64, String)> = match read_cloud_jsonl_vec(&st, BUCKET, &key) {
+                Ok(v) => v,
+                Err(e) => return json!(["err", format!("read:{:?}", e.kind)]),
+            };
+            let first = back.first().map_or(-1, |r| r.0);
+            let last = back.last().map_or(-1, |r| r.0);
+            let sum: i64 = back.iter().map(|r| r.0).sum();
+            let consecutive = back.iter().enumerate().all(|(i, r)| r.0 == i as i64);
+            let payload = back.iter().all(|r| r.1 == "row");
+            json!(["ok", nw, back.len(), first, last, sum, consecutive, payload, sig])
         }
         "seq" => {
             let st = FakeObjectIO::new();
@@ -316,6 +353,7 @@ fn nontrivial(kind: &str, input: &Value, out: &Value) -> bool {
             let matched = out[0][1].as_array().map_or(0, Vec::len);
             out[0][0] == "ok" && has_special(&pattern) && matched > 0 && matched < total
         }
+        "big" => input[1].as_i64().unwrap() > 1 && out[0] == "ok",
         "roundtrip" => !input[1].as_array().unwrap().is_empty() && out[0] == "ok",
         "seq" => {
             // some key is written at least twice and read back
@@ -627,7 +665,21 @@ fn generate(seed: u64, tier: Tier, em: &mut Emitter) {
         let p = gen_pattern(&mut rng, &keys);
         let exists = !keys.is_empty() || rng.chance(1, 2);
         let jk: Vec<Value> = keys.iter().map(|k| sval(k)).collect();
-        emit(em, "expand", json!([exists, jk, p]), &["random"]);
+        if rng.chance(1, 2) {
+            // some objects have a zero-length body (put directly / written with no record)
+            let mut e: Vec<Value> = Vec::new();
+            let mut w: Vec<Value> = Vec::new();
+            for k in &keys {
+                match rng.below(4) {
+                    0 => e.push(sval(k)),
+                    1 => w.push(sval(k)),
+                    _ => {}
+                }
+            }
+            emit(em, "expand", json!([exists, jk, p, e, w]), &["random", "zero-length"]);
+        } else {
+            emit(em, "expand", json!([exists, jk, p]), &["random"]);
+        }
     }
 
     // ---- 5. JSONL round trip: keys x record vectors
@@ -686,6 +738,53 @@ fn generate(seed: u64, tier: Tier, em: &mut Emitter) {
         let names: Vec<String> = objs.iter().map(|o| str_of(&o[0])).collect();
         let p = gen_pattern(&mut rng, &names);
         emit(em, "readglob", json!([objs, p]), &["random"]);
+    }
+
+    // ---- 6b. zero-length objects: expansion is by KEY, an empty object is listed like any other
+    let zkeys = json!(["d/a.jsonl", "d/b.jsonl", "d/c.jsonl.gz", "d/sub/", "d/e", "x"]);
+    for (e, w) in [
+        (json!([]), json!(["d/a.jsonl"])),
+        (json!(["d/a.jsonl"]), json!([])),
+        (json!(["d/sub/", "d/e"]), json!(["d/a.jsonl", "d/c.jsonl.gz"])),
+        (json!(["d/a.jsonl", "d/b.jsonl", "d/c.jsonl.gz", "d/sub/", "d/e", "x"]), json!([])),
+        (json!([]), json!(["d/a.jsonl", "d/b.jsonl", "d/c.jsonl.gz", "d/sub/", "d/e", "x"])),
+    ] {
+        for p in ["d/*.jsonl", "d/a.jsonl", "d/a*", "d/**", "**", "d/sub/", "d/sub/*", "x", "?", "d/e", "nomatch"] {
+            emit(em, "expand", json!([true, zkeys, p, e, w]), &["doc", "zero-length"]);
+        }
+    }
+    // the only match is an empty object: expand_cloud_glob_required must succeed
+    emit(em, "expand", json!([true, ["only"], "onl?", [], ["only"]]), &["doc", "zero-length", "only-match-empty"]);
+    emit(em, "expand", json!([true, ["only"], "only", ["only"], []]), &["doc", "zero-length", "only-match-empty"]);
+    emit(em, "expand", json!([true, ["only", "other"], "on*", [], ["only"]]), &["doc", "zero-length", "only-match-empty"]);
+    for p in ["d/*", "**", "d/a", "d/?"] {
+        emit(
+            em,
+            "readglob",
+            json!([[["d/a", []], ["d/b", [1, 2]], ["d/c", []], ["d/d.gz", []], ["d/e", [3]], ["f", []]], p]),
+            &["doc", "zero-length"],
+        );
+        emit(em, "readglob", json!([[["d/a", []], ["d/c", []]], p]), &["doc", "zero-length", "all-empty"]);
+    }
+
+    // ---- 6c. big round trips: more records than any internal batching boundary
+    let big_keys: Vec<&str> = if thorough {
+        vec![
+            "big", "big.jsonl", "big.gz", "big.GZ", "big.gzip", "big.GzIp", "big.zst", "big.ZST", "big.zstd",
+            "big.bz2", "big.BZ2", "big.bzip2", "big.xz", "big.XZ", ".gz", "d/.gzip",
+        ]
+    } else {
+        vec!["big", "big.gz", "big.GZ", "big.gzip", "big.zst", "big.zstd", "big.bz2", "big.bzip2", "big.xz"]
+    };
+    let big_ns: Vec<i64> = if thorough {
+        vec![0, 1, 100, 4095, 4096, 4097, 8191, 8192, 8193, 16383, 16384, 16385, 20000, 32769, 65537, 100000]
+    } else {
+        vec![8191, 8192, 8193, 20000]
+    };
+    for key in &big_keys {
+        for &n in &big_ns {
+            emit(em, "big", json!([key, n]), &["big"]);
+        }
     }
 
     // ---- 7. overwrite sequences: the object read back is the LAST one written
